@@ -49,12 +49,26 @@ class Link(object):
         self.reads = 0
         self.eof_reads = 0              # read() calls that returned b''
         self.idle = 0                   # times select found nothing
+        self.clean = 0                  # ... and nothing was queued either
+        self.watch_conn = None          # whose outgoing queue `clean` means
         self.send_error = None          # exception instance to raise on send
         self.peer_reset = False         # the peer answered with RST
         self.before_send = None         # one-shot callable run inside send()
         self.in_script = False
         self.killed = False
         self.max_eof_reads = 10000
+
+    def clean_tick(self):
+        """called by the fake select() (the client's own thread) when it
+        found nothing to read: the tick is 'clean' if at that very moment
+        nothing is waiting to be read and nothing is queued for writing.
+        The client's thread is then between two loop passes - every packet
+        it had read has been dispatched and every reply it had queued has
+        been popped AND sent (pop and send happen in that thread before it
+        can reach select again)."""
+        if not self.s2c and not getattr(self.watch_conn,
+                                        '_outgoing_packet_queue', ()):
+            self.clean += 1
 
     def log(self, kind, info=None):
         seq = self.world.next_seq()
@@ -450,10 +464,12 @@ class World(object):
                 link = files[0].link
                 if world.scheduler is not None:
                     link.idle += 1
+                    link.clean_tick()
                     world.yield_point('idle', None)
                     return [], [], []
                 with link.cond:
                     link.idle += 1
+                    link.clean_tick()
                     link.cond.notify_all()
                     if not link.readable() and not files[0].closed:
                         t = 0.05 if timeout is None else min(timeout, 0.05)
@@ -538,14 +554,21 @@ class World(object):
         link, its outgoing queue is empty and it went idle in select."""
         deadline = time.monotonic() + timeout
         with link.cond:
+            link.watch_conn = conn
             while True:
                 q = getattr(conn, '_outgoing_packet_queue', ()) \
                     if conn is not None else ()
-                base = link.idle
+                base = link.clean
                 if not link.s2c and not q:
-                    # wait for one more idle tick after the queues emptied
+                    # Wait for one more CLEAN tick after the queues emptied.
+                    # (A plain idle tick is not enough: between reading a
+                    # packet and queueing the reply, and again between
+                    # popping the reply and sending it, both queues are
+                    # empty, and pyCraft polls select(timeout=0) in between
+                    # - with the reply queued.  Seen as a premature
+                    # snapshot under load, C11 two_connections.)
                     link.cond.wait(0.06)
-                    if link.idle > base and not link.s2c and \
+                    if link.clean > base and not link.s2c and \
                             not (getattr(conn, '_outgoing_packet_queue', ())
                                  if conn is not None else ()):
                         return True
